@@ -3,6 +3,7 @@ import GcmpyModel.Driver.C20
 import GcmpyModel.Driver.Gen
 import GcmpyModel.Driver.C04
 import GcmpyModel.Driver.C05
+import GcmpyModel.Driver.Loaders
 /-! Line protocol: one JSON request per line on stdin, one JSON reply per line on stdout.
     The driver only *executes* the model's definitions; it is outside the proofs. -/
 open Lean Gcmpy.Driver
@@ -14,6 +15,9 @@ def dispatch (j : Json) : R Json := do
   | "gen" => Gen.handle j
   | "c04" => C04.handle j
   | "c05" => C05.handle j
+  | "c06" => Loaders.c06 j
+  | "c07" => Loaders.c07 j
+  | "c08" => Loaders.c08 j
   | "ping" => pure (obj [("pong", Json.bool true)])
   | _ => throw s!"unknown op {op}"
 
